@@ -1,8 +1,12 @@
 /-
   Scc.Fun2Core.SemFrag — the decidable description of the fragment for which the semantic part of
   C02 is proved, in terms of the predicates used by the checks (`Fun.Sequenced`, `Fun.noMainCall`)
-  and a purely syntactic predicate `fragTerm` (no `new`, no destructor call; clause binders pairwise
-  distinct and equal to the names of the typed clause context).
+  and a predicate `fragT` on annotated terms:
+    * every term in evaluation position (definition / clause bodies, branches, bound terms of
+      integer/data `let`s, scrutinees of `case`, operands) has an integer or data type;
+    * codata values are created by `new`, bound by codata-typed `let`s to variables or `new`s, and
+      passed as arguments; the scrutinee of a destructor call is a variable or a `new`;
+    * clause binders are pairwise distinct and are the names of the typed clause context.
 -/
 import Scc.Fun2Core.SemMain
 import Scc.Fun.MainCall
@@ -11,185 +15,250 @@ namespace Scc.Fun2Core.Sem
 open Scc
 
 mutual
-  /-- the syntactic fragment: everything except `new` and destructor calls -/
-  def fragTerm : Fun.Term → Bool
+  /-- terms in evaluation position -/
+  def fragT (p : Fun.CheckedProgram) : Fun.Term → Bool
+    | .var _ ty _ => ncdO p ty
+    | .lit _ => true
+    | .op a _ b => fragP p a && fragP p b
+    | .ifc _ a b t e ty => fragT p a && fragT p b && fragT p t && fragT p e && ncdO p ty
+    | .ifz _ a t e ty => fragT p a && fragT p t && fragT p e && ncdO p ty
+    | .print _ a n ty => fragT p a && fragT p n && ncdO p ty
+    | .letIn _ vt b i ty =>
+      ncdO p ty && fragT p i && (if Fun.isCodataTy p vt then fragP p b && pureS b else fragT p b)
+    | .call _ as ty => fragPs p as && ncdO p ty
+    | .ctor _ as ty => fragPs p as && ncdO p ty
+    | .dtor s _ _ as ty => pureS s && fragP p s && cdO p s.getType && fragPs p as && ncdO p ty
+    | .case s _ cs ty => fragT p s && ncdO p s.getType && fragCs p cs && ncdO p ty
+    | .label _ t ty => fragT p t && ncdO p ty
+    | .goto _ t ty => fragT p t && ncdO p t.getType && ncdO p ty
+    | .exit t ty => fragT p t && ncdO p ty
+    | .paren t => fragT p t
+    | .new .. => false
+  /-- terms in operand / argument / by-name position (purity itself is part of `Sequenced`) -/
+  def fragP (p : Fun.CheckedProgram) : Fun.Term → Bool
     | .var .. => true
     | .lit _ => true
-    | .op a _ b => fragTerm a && fragTerm b
-    | .ifc _ a b t e _ => fragTerm a && fragTerm b && fragTerm t && fragTerm e
-    | .ifz _ a t e _ => fragTerm a && fragTerm t && fragTerm e
-    | .print _ a n _ => fragTerm a && fragTerm n
-    | .letIn _ _ b i _ => fragTerm b && fragTerm i
-    | .call _ as _ => fragArgs as
-    | .ctor _ as _ => fragArgs as
-    | .case s _ cs _ => fragTerm s && fragClauses cs
-    | .label _ t _ => fragTerm t
-    | .goto _ t _ => fragTerm t
-    | .exit t _ => fragTerm t
-    | .paren t => fragTerm t
-    | .new .. => false
-    | .dtor .. => false
-  def fragArgs : Fun.Terms → Bool
+    | .op a _ b => fragP p a && fragP p b
+    | .ctor _ as _ => fragPs p as
+    | .new cs _ => fragCs p cs
+    | .paren t => fragP p t
+    | _ => false
+  def fragPs (p : Fun.CheckedProgram) : Fun.Terms → Bool
     | .nil => true
-    | .cons t r => fragTerm t && fragArgs r
-  def fragClauses : Fun.Clauses → Bool
+    | .cons t r =>
+      fragP p t &&
+      (match t.getType with
+        | some ty => !Fun.isCodataTy p ty || pureS t
+        | none => true) && fragPs p r
+  def fragCs (p : Fun.CheckedProgram) : Fun.Clauses → Bool
     | .nil => true
     | .cons _ _ names ctx b r =>
-      fragTerm b && decide names.Nodup && decide (ctx.map (·.var) = names) && fragClauses r
+      fragT p b && ncdO p b.getType && decide names.Nodup && decide (ctx.map (·.var) = names) &&
+      fragCs p r
 end
 
-mutual
-  theorem pureFO_of : ∀ t : Fun.Term, Fun.pureTerm t = true → fragTerm t = true → pureFO t = true
-    | .var .., _, _ => rfl
-    | .lit _, _, _ => rfl
-    | .op a o b, hp, hf => by
-      simp only [Fun.pureTerm, Bool.and_eq_true] at hp
-      simp only [fragTerm, Bool.and_eq_true] at hf
-      simp only [pureFO, Bool.and_eq_true]
-      exact ⟨⟨hp.1.1, pureFO_of a hp.1.2 hf.1⟩, pureFO_of b hp.2 hf.2⟩
-    | .ctor _ as _, hp, hf => by
-      simp only [Fun.pureTerm] at hp
-      simp only [fragTerm] at hf
-      simp only [pureFO]
-      exact pureFOs_of as hp hf
-    | .paren t, hp, hf => by
-      simp only [Fun.pureTerm] at hp
-      simp only [fragTerm] at hf
-      simp only [pureFO]
-      exact pureFO_of t hp hf
-    | .new .., _, hf => by simp [fragTerm] at hf
-    | .ifc .., hp, _ => by simp [Fun.pureTerm] at hp
-    | .ifz .., hp, _ => by simp [Fun.pureTerm] at hp
-    | .print .., hp, _ => by simp [Fun.pureTerm] at hp
-    | .letIn .., hp, _ => by simp [Fun.pureTerm] at hp
-    | .call .., hp, _ => by simp [Fun.pureTerm] at hp
-    | .dtor .., hp, _ => by simp [Fun.pureTerm] at hp
-    | .case .., hp, _ => by simp [Fun.pureTerm] at hp
-    | .label .., hp, _ => by simp [Fun.pureTerm] at hp
-    | .goto .., hp, _ => by simp [Fun.pureTerm] at hp
-    | .exit .., hp, _ => by simp [Fun.pureTerm] at hp
-  theorem pureFOs_of : ∀ as : Fun.Terms, Fun.pureTerms as = true → fragArgs as = true →
-      pureFOs as = true
-    | .nil, _, _ => rfl
-    | .cons t r, hp, hf => by
-      simp only [Fun.pureTerms, Bool.and_eq_true] at hp
-      simp only [fragArgs, Bool.and_eq_true] at hf
-      simp only [pureFOs, Bool.and_eq_true]
-      exact ⟨pureFO_of t hp.1 hf.1, pureFOs_of r hp.2 hf.2⟩
-end
+theorem pureS_pure : ∀ s : Fun.Term, pureS s = true → Fun.pureTerm s = true
+  | .var .., _ => rfl
+  | .new .., _ => rfl
+  | .paren t, h => by
+    simp only [Fun.pureTerm]
+    exact pureS_pure t (by simpa [pureS] using h)
+  | .lit _, h => by simp [pureS] at h
+  | .op .., h => by simp [pureS] at h
+  | .ifc .., h => by simp [pureS] at h
+  | .ifz .., h => by simp [pureS] at h
+  | .print .., h => by simp [pureS] at h
+  | .letIn .., h => by simp [pureS] at h
+  | .call .., h => by simp [pureS] at h
+  | .ctor .., h => by simp [pureS] at h
+  | .dtor .., h => by simp [pureS] at h
+  | .case .., h => by simp [pureS] at h
+  | .label .., h => by simp [pureS] at h
+  | .goto .., h => by simp [pureS] at h
+  | .exit .., h => by simp [pureS] at h
 
 mutual
-  /-- a sequenced term of the syntactic fragment that does not call `main` is `good` -/
   theorem good_of (p : Fun.CheckedProgram) : ∀ t : Fun.Term, Fun.seqTerm p t = true →
-      fragTerm t = true → t.callsMain = false → good t = true
-    | .var .., _, _, _ => rfl
+      fragT p t = true → t.callsMain = false → good p t = true
+    | .var .., _, hf, _ => by simpa [fragT, good] using hf
     | .lit _, _, _, _ => rfl
-    | .op a o b, hs, hf, _ => by
+    | .op a o b, hs, hf, hm => by
       simp only [Fun.seqTerm, Bool.and_eq_true] at hs
-      simp only [fragTerm, Bool.and_eq_true] at hf
+      simp only [fragT, Bool.and_eq_true] at hf
+      simp only [Fun.Term.callsMain, Bool.or_eq_false_iff] at hm
       simp only [good, Bool.and_eq_true]
-      exact ⟨pureFO_of a hs.1.1.1 hf.1, pureFO_of b hs.1.1.2 hf.2⟩
+      exact ⟨goodP_of p a hs.1.1.1 hs.1.2 hf.1 hm.1, goodP_of p b hs.1.1.2 hs.2 hf.2 hm.2⟩
     | .ifc _ a b t e _, hs, hf, hm => by
       simp only [Fun.seqTerm, Bool.and_eq_true] at hs
-      simp only [fragTerm, Bool.and_eq_true] at hf
+      simp only [fragT, Bool.and_eq_true] at hf
       simp only [Fun.Term.callsMain, Bool.or_eq_false_iff] at hm
       simp only [good, Bool.and_eq_true]
-      exact ⟨⟨⟨good_of p a hs.1.1.1 hf.1.1.1 hm.1.1.1, good_of p b hs.1.1.2 hf.1.1.2 hm.1.1.2⟩,
-        good_of p t hs.1.2 hf.1.2 hm.1.2⟩, good_of p e hs.2 hf.2 hm.2⟩
+      exact ⟨⟨⟨⟨good_of p a hs.1.1.1 hf.1.1.1.1 hm.1.1.1, good_of p b hs.1.1.2 hf.1.1.1.2 hm.1.1.2⟩,
+        good_of p t hs.1.2 hf.1.1.2 hm.1.2⟩, good_of p e hs.2 hf.1.2 hm.2⟩, hf.2⟩
     | .ifz _ a t e _, hs, hf, hm => by
       simp only [Fun.seqTerm, Bool.and_eq_true] at hs
-      simp only [fragTerm, Bool.and_eq_true] at hf
+      simp only [fragT, Bool.and_eq_true] at hf
       simp only [Fun.Term.callsMain, Bool.or_eq_false_iff] at hm
       simp only [good, Bool.and_eq_true]
-      exact ⟨⟨good_of p a hs.1.1 hf.1.1 hm.1.1, good_of p t hs.1.2 hf.1.2 hm.1.2⟩,
-        good_of p e hs.2 hf.2 hm.2⟩
+      exact ⟨⟨⟨good_of p a hs.1.1 hf.1.1.1 hm.1.1, good_of p t hs.1.2 hf.1.1.2 hm.1.2⟩,
+        good_of p e hs.2 hf.1.2 hm.2⟩, hf.2⟩
     | .print _ a n _, hs, hf, hm => by
       simp only [Fun.seqTerm, Bool.and_eq_true] at hs
-      simp only [fragTerm, Bool.and_eq_true] at hf
+      simp only [fragT, Bool.and_eq_true] at hf
       simp only [Fun.Term.callsMain, Bool.or_eq_false_iff] at hm
       simp only [good, Bool.and_eq_true]
-      exact ⟨good_of p a hs.1 hf.1 hm.1, good_of p n hs.2 hf.2 hm.2⟩
-    | .letIn _ _ b i _, hs, hf, hm => by
-      simp only [Fun.seqTerm, Bool.and_eq_true] at hs
-      simp only [fragTerm, Bool.and_eq_true] at hf
+      exact ⟨⟨good_of p a hs.1 hf.1.1 hm.1, good_of p n hs.2 hf.1.2 hm.2⟩, hf.2⟩
+    | .letIn _ vt b i _, hs, hf, hm => by
+      simp only [Fun.seqTerm, Bool.and_eq_true, Bool.or_eq_true, Bool.not_eq_true'] at hs
+      simp only [fragT, Bool.and_eq_true] at hf
       simp only [Fun.Term.callsMain, Bool.or_eq_false_iff] at hm
       simp only [good, Bool.and_eq_true]
-      exact ⟨good_of p b hs.1.2 hf.1 hm.1, good_of p i hs.2 hf.2 hm.2⟩
+      refine ⟨⟨hf.1.1, good_of p i hs.2 hf.1.2 hm.2⟩, ?_⟩
+      by_cases hcd : Fun.isCodataTy p vt = true
+      · have h3 := hf.2
+        rw [if_pos hcd] at h3 ⊢
+        simp only [Bool.and_eq_true] at h3 ⊢
+        rcases hs.1.1 with h | h
+        · rw [hcd] at h; cases h
+        · exact ⟨goodP_of p b h hs.1.2 h3.1 hm.1, h3.2⟩
+      · have h3 := hf.2
+        rw [if_neg hcd] at h3 ⊢
+        exact good_of p b hs.1.2 h3 hm.1
     | .call f as _, hs, hf, hm => by
       simp only [Fun.seqTerm, Bool.and_eq_true] at hs
-      simp only [fragTerm] at hf
+      simp only [fragT, Bool.and_eq_true] at hf
       simp only [Fun.Term.callsMain, Bool.or_eq_false_iff] at hm
       simp only [good, Bool.and_eq_true, bne_iff_ne, ne_eq]
-      exact ⟨by simpa using hm.1, pureFOs_of as hs.1 hf⟩
-    | .ctor _ as _, hs, hf, _ => by
+      exact ⟨⟨by simpa using hm.1, goodPs_of p as hs.1 hs.2 hf.1 hm.2⟩, hf.2⟩
+    | .ctor _ as _, hs, hf, hm => by
       simp only [Fun.seqTerm, Bool.and_eq_true] at hs
-      simp only [fragTerm] at hf
-      simp only [good]
-      exact pureFOs_of as hs.1 hf
-    | .case s _ cs _, hs, hf, hm => by
+      simp only [fragT, Bool.and_eq_true] at hf
+      simp only [Fun.Term.callsMain] at hm
+      simp only [good, Bool.and_eq_true]
+      exact ⟨goodPs_of p as hs.1 hs.2 hf.1 hm, hf.2⟩
+    | .dtor s _ _ as _, hs, hf, hm => by
       simp only [Fun.seqTerm, Bool.and_eq_true] at hs
-      simp only [fragTerm, Bool.and_eq_true] at hf
+      simp only [fragT, Bool.and_eq_true] at hf
       simp only [Fun.Term.callsMain, Bool.or_eq_false_iff] at hm
       simp only [good, Bool.and_eq_true]
-      exact ⟨good_of p s hs.1 hf.1 hm.1, goodClauses_of p cs hs.2 hf.2 hm.2⟩
+      have hps : Fun.pureTerm s = true := pureS_pure s hf.1.1.1.1
+      exact ⟨⟨⟨⟨hf.1.1.1.1, goodP_of p s hps hs.1.1 hf.1.1.1.2 hm.1⟩, hf.1.1.2⟩,
+        goodPs_of p as hs.1.2 hs.2 hf.1.2 hm.2⟩, hf.2⟩
+    | .case s _ cs _, hs, hf, hm => by
+      simp only [Fun.seqTerm, Bool.and_eq_true] at hs
+      simp only [fragT, Bool.and_eq_true] at hf
+      simp only [Fun.Term.callsMain, Bool.or_eq_false_iff] at hm
+      simp only [good, Bool.and_eq_true]
+      exact ⟨⟨⟨good_of p s hs.1 hf.1.1.1 hm.1, hf.1.1.2⟩, goodCs_of p cs hs.2 hf.1.2 hm.2⟩, hf.2⟩
     | .label _ t _, hs, hf, hm => by
       simp only [Fun.seqTerm] at hs
-      simp only [fragTerm] at hf
+      simp only [fragT, Bool.and_eq_true] at hf
       simp only [Fun.Term.callsMain] at hm
-      simp only [good]
-      exact good_of p t hs hf hm
+      simp only [good, Bool.and_eq_true]
+      exact ⟨good_of p t hs hf.1 hm, hf.2⟩
     | .goto _ t _, hs, hf, hm => by
       simp only [Fun.seqTerm] at hs
-      simp only [fragTerm] at hf
+      simp only [fragT, Bool.and_eq_true] at hf
       simp only [Fun.Term.callsMain] at hm
-      simp only [good]
-      exact good_of p t hs hf hm
+      simp only [good, Bool.and_eq_true]
+      exact ⟨⟨good_of p t hs hf.1.1 hm, hf.1.2⟩, hf.2⟩
     | .exit t _, hs, hf, hm => by
       simp only [Fun.seqTerm] at hs
-      simp only [fragTerm] at hf
+      simp only [fragT, Bool.and_eq_true] at hf
       simp only [Fun.Term.callsMain] at hm
-      simp only [good]
-      exact good_of p t hs hf hm
+      simp only [good, Bool.and_eq_true]
+      exact ⟨good_of p t hs hf.1 hm, hf.2⟩
     | .paren t, hs, hf, hm => by
       simp only [Fun.seqTerm] at hs
-      simp only [fragTerm] at hf
+      simp only [fragT] at hf
       simp only [Fun.Term.callsMain] at hm
       simp only [good]
       exact good_of p t hs hf hm
-    | .new .., _, hf, _ => by simp [fragTerm] at hf
-    | .dtor .., _, hf, _ => by simp [fragTerm] at hf
-  theorem goodClauses_of (p : Fun.CheckedProgram) : ∀ cs : Fun.Clauses, Fun.seqClauses p cs = true →
-      fragClauses cs = true → cs.callsMain = false → goodClauses cs = true
+    | .new .., _, hf, _ => by simp [fragT] at hf
+  theorem goodP_of (p : Fun.CheckedProgram) : ∀ t : Fun.Term, Fun.pureTerm t = true →
+      Fun.seqTerm p t = true → fragP p t = true → t.callsMain = false → goodP p t = true
+    | .var .., _, _, _, _ => rfl
+    | .lit _, _, _, _, _ => rfl
+    | .op a o b, hp, hs, hf, hm => by
+      simp only [Fun.pureTerm, Bool.and_eq_true] at hp
+      simp only [Fun.seqTerm, Bool.and_eq_true] at hs
+      simp only [fragP, Bool.and_eq_true] at hf
+      simp only [Fun.Term.callsMain, Bool.or_eq_false_iff] at hm
+      simp only [goodP, Bool.and_eq_true]
+      exact ⟨⟨hp.1.1, goodP_of p a hp.1.2 hs.1.2 hf.1 hm.1⟩, goodP_of p b hp.2 hs.2 hf.2 hm.2⟩
+    | .ctor _ as _, hp, hs, hf, hm => by
+      simp only [Fun.pureTerm] at hp
+      simp only [Fun.seqTerm, Bool.and_eq_true] at hs
+      simp only [fragP] at hf
+      simp only [Fun.Term.callsMain] at hm
+      simp only [goodP]
+      exact goodPs_of p as hp hs.2 hf hm
+    | .new cs _, _, hs, hf, hm => by
+      simp only [Fun.seqTerm] at hs
+      simp only [fragP] at hf
+      simp only [Fun.Term.callsMain] at hm
+      simp only [goodP]
+      exact goodCs_of p cs hs hf hm
+    | .paren t, hp, hs, hf, hm => by
+      simp only [Fun.pureTerm] at hp
+      simp only [Fun.seqTerm] at hs
+      simp only [fragP] at hf
+      simp only [Fun.Term.callsMain] at hm
+      simp only [goodP]
+      exact goodP_of p t hp hs hf hm
+    | .ifc .., hp, _, _, _ => by simp [Fun.pureTerm] at hp
+    | .ifz .., hp, _, _, _ => by simp [Fun.pureTerm] at hp
+    | .print .., hp, _, _, _ => by simp [Fun.pureTerm] at hp
+    | .letIn .., hp, _, _, _ => by simp [Fun.pureTerm] at hp
+    | .call .., hp, _, _, _ => by simp [Fun.pureTerm] at hp
+    | .dtor .., hp, _, _, _ => by simp [Fun.pureTerm] at hp
+    | .case .., hp, _, _, _ => by simp [Fun.pureTerm] at hp
+    | .label .., hp, _, _, _ => by simp [Fun.pureTerm] at hp
+    | .goto .., hp, _, _, _ => by simp [Fun.pureTerm] at hp
+    | .exit .., hp, _, _, _ => by simp [Fun.pureTerm] at hp
+  theorem goodPs_of (p : Fun.CheckedProgram) : ∀ as : Fun.Terms, Fun.pureTerms as = true →
+      Fun.seqTerms p as = true → fragPs p as = true → as.callsMain = false → goodPs p as = true
+    | .nil, _, _, _, _ => rfl
+    | .cons t r, hp, hs, hf, hm => by
+      simp only [Fun.pureTerms, Bool.and_eq_true] at hp
+      simp only [Fun.seqTerms, Bool.and_eq_true] at hs
+      simp only [fragPs, Bool.and_eq_true] at hf
+      simp only [Fun.Terms.callsMain, Bool.or_eq_false_iff] at hm
+      simp only [goodPs, Bool.and_eq_true]
+      exact ⟨⟨goodP_of p t hp.1 hs.1 hf.1.1 hm.1, hf.1.2⟩, goodPs_of p r hp.2 hs.2 hf.2 hm.2⟩
+  theorem goodCs_of (p : Fun.CheckedProgram) : ∀ cs : Fun.Clauses, Fun.seqClauses p cs = true →
+      fragCs p cs = true → cs.callsMain = false → goodClauses p cs = true
     | .nil, _, _, _ => rfl
     | .cons _ _ names ctx b r, hs, hf, hm => by
       simp only [Fun.seqClauses, Bool.and_eq_true] at hs
-      simp only [fragClauses, Bool.and_eq_true] at hf
+      simp only [fragCs, Bool.and_eq_true] at hf
       simp only [Fun.Clauses.callsMain, Bool.or_eq_false_iff] at hm
       simp only [goodClauses, Bool.and_eq_true]
-      exact ⟨⟨⟨good_of p b hs.1 hf.1.1.1 hm.1, hf.1.1.2⟩, hf.1.2⟩, goodClauses_of p r hs.2 hf.2 hm.2⟩
+      exact ⟨⟨⟨⟨good_of p b hs.1 hf.1.1.1.1 hm.1, hf.1.1.1.2⟩, hf.1.1.2⟩, hf.1.2⟩,
+        goodCs_of p r hs.2 hf.2 hm.2⟩
 end
 
-/-- syntactic conditions on one definition: in the fragment, parameters pairwise distinct, closed,
-no parameter or binder named `ς` -/
-def defFrag (d : Fun.Def) : Bool :=
-  fragTerm d.body && decide (d.ctx.map (·.var)).Nodup &&
+/-- conditions on one definition: in the fragment, parameters pairwise distinct, closed, no
+parameter or binder named `ς` -/
+def defFrag (p : Fun.CheckedProgram) (d : Fun.Def) : Bool :=
+  fragT p d.body && decide (d.ctx.map (·.var)).Nodup &&
   (fv d.body).all (fun x => (d.ctx.map (·.var)).contains x) &&
   !(d.ctx.map (·.var)).contains sig && !(binderNames d.body).contains sig
 
 /-- the fragment of C02 (semantic part) covered by `C02_sem_forward_frag`: sequenced, no call of
-`main`, no codata declarations, every definition satisfies `defFrag`, definition names pairwise
-distinct, parameters of `main` are producers -/
+`main`, every definition satisfies `defFrag`, definition names pairwise distinct, parameters of
+`main` are producers -/
 def fragOk (p : Fun.CheckedProgram) : Bool :=
-  Fun.Sequenced p && Fun.noMainCall p && p.codataTypes.isEmpty && p.defs.all defFrag &&
+  Fun.Sequenced p && Fun.noMainCall p && p.defs.all (defFrag p) &&
   decide (p.defs.map (·.name)).Nodup &&
   p.defs.all (fun d => d.name != "main" || d.ctx.all (fun b => b.chi == .prd))
 
 theorem progOk_of_fragOk {p : Fun.CheckedProgram} (h : fragOk p = true) : progOk p = true := by
   simp only [fragOk, Bool.and_eq_true, Fun.Sequenced, Fun.noMainCall, List.all_eq_true,
     Bool.not_eq_true'] at h
-  obtain ⟨⟨⟨⟨⟨hseq, hnm⟩, hcod⟩, hdf⟩, hnd⟩, hmp⟩ := h
+  obtain ⟨⟨⟨⟨hseq, hnm⟩, hdf⟩, hnd⟩, hmp⟩ := h
   simp only [progOk, Bool.and_eq_true, List.all_eq_true]
-  refine ⟨⟨⟨hcod, fun d hd => ?_⟩, hnd⟩, hmp⟩
+  refine ⟨⟨fun d hd => ?_, hnd⟩, hmp⟩
   have h1 := hdf d hd
   simp only [defFrag, Bool.and_eq_true] at h1
   obtain ⟨⟨⟨⟨h1, h2⟩, h3⟩, h4⟩, h5⟩ := h1
